@@ -54,10 +54,60 @@ static struct map macros;
 /* number of macros currently undergoing expansion */
 static size_t macrodepth;
 
+#ifdef CPROC_VERIF
+/*
+verification hook H2: preprocessor quiescence monitor. Whenever a token
+is fetched from the input file while the context stack is empty, no
+macro may still be marked as being expanded. Counters are written to
+the file named by CPROC_VERIF_PPMON at exit.
+*/
+static struct {
+	FILE *out;
+	unsigned long expansions, funcexpansions, maxdepth, maxctx, quiescent, violations;
+} verif_pp;
+
+static void
+verif_ppexit(void)
+{
+	fprintf(verif_pp.out, "PPMON expansions=%lu funclike=%lu maxdepth=%lu maxctx=%lu quiescent_checks=%lu violations=%lu\n",
+		verif_pp.expansions, verif_pp.funcexpansions, verif_pp.maxdepth, verif_pp.maxctx, verif_pp.quiescent, verif_pp.violations);
+	fclose(verif_pp.out);
+}
+
+static void
+verif_ppquiescent(void)
+{
+	size_t i;
+	struct macro *m;
+
+	if (!verif_pp.out || ctx.len)
+		return;
+	++verif_pp.quiescent;
+	if (macrodepth != 0) {
+		++verif_pp.violations;
+		fprintf(verif_pp.out, "PPMON-VIOLATION macrodepth=%zu with empty context stack\n", macrodepth);
+	}
+	for (i = 0; i < macros.cap; ++i) {
+		m = macros.keys[i].str ? macros.vals[i] : NULL;
+		if (m && m->hide) {
+			++verif_pp.violations;
+			fprintf(verif_pp.out, "PPMON-VIOLATION macro '%s' still hidden with empty context stack\n", m->name);
+		}
+	}
+}
+#endif
+
 void
 ppinit(void)
 {
 	mapinit(&macros, 64);
+#ifdef CPROC_VERIF
+	if (getenv("CPROC_VERIF_PPMON")) {
+		verif_pp.out = fopen(getenv("CPROC_VERIF_PPMON"), "a");
+		if (verif_pp.out)
+			atexit(verif_ppexit);
+	}
+#endif
 	next();
 }
 
@@ -367,6 +417,9 @@ nextinto(struct token *t)
 {
 	static bool newline = true;
 
+#ifdef CPROC_VERIF
+	verif_ppquiescent();
+#endif
 	for (;;) {
 		scan(t);
 		if (newline && t->kind == THASH) {
@@ -460,6 +513,15 @@ expand(struct token *t)
 	ctxpush(m->token, m->ntoken, m, space);
 	m->hide = true;
 	++macrodepth;
+#ifdef CPROC_VERIF
+	++verif_pp.expansions;
+	if (m->kind == MACROFUNC)
+		++verif_pp.funcexpansions;
+	if (macrodepth > verif_pp.maxdepth)
+		verif_pp.maxdepth = macrodepth;
+	if (ctx.len / sizeof(struct frame) > verif_pp.maxctx)
+		verif_pp.maxctx = ctx.len / sizeof(struct frame);
+#endif
 	return true;
 }
 
